@@ -3,74 +3,95 @@
 
     Setting.  [names_of] maps a hash to the names of the certificate with that hash (the hash is
     blake3 of the DER chain, the names are read from the leaf, so equal hashes have equal names).
-    A history is any list of operations ([Cache.Model.op]); an operation may carry an arbitrarily
-    stale copy of a certificate, which is how the read / act / write-back splits of
-    handshakeMaintenance, updateOCSPStaples, updateARI, RemoveManaged, reloadManagedCertificate
-    appear in a history.  [wf_op] only asks that the certificates an operation carries have the
-    names of their hash and a non-empty hash. *)
-From CM Require Import Lib.Str Cache.Model Cache.AMapFacts Cache.Proofs Cache.Check Cache.SpecProofs Cache.Sched.
+    A history is any list of operations ([Cache.Model.dop]): the cache operations proper
+    ([DOp o], [o : Cache.Model.op]), [Cache.SetOptions] changing the capacity at run time,
+    [Cache.AllMatchingCertificates], [Cache.Stop] and the scans of the maintenance passes.  An
+    operation may carry an arbitrarily stale copy of a certificate, which is how the read / act /
+    write-back splits of handshakeMaintenance, updateOCSPStaples, updateARI, RemoveManaged,
+    reloadManagedCertificate appear in a history.  [wf_dop] only asks that the certificates an
+    operation carries have the names of their hash and a non-empty hash.  [dinit cap] is the empty
+    cache created with capacity [cap]; the capacity in force after a history is [d_cap]. *)
+From CM Require Import Lib.Str Gen.Consts Cache.Model Cache.AMapFacts Cache.Proofs Cache.Check Cache.SpecProofs Cache.Sched.
 From Coq Require Import Arith.
 Open Scope nat_scope.
 
 (** F inv_preserved: the invariant (index and cache agree with multiplicity; no empty index list;
-    every entry is stored under its own hash; size within capacity) holds after every history *)
+    every entry is stored under its own hash; size within the capacity configured at that moment)
+    holds after every history, SetOptions included *)
 Theorem C12_inv_preserved : forall names_of cap ops,
-  Forall (wf_op names_of) ops -> Inv names_of cap (run cap init ops).
-Proof. intros. apply run_inv; [apply inv_init | assumption]. Qed.
+  Forall (wf_dop names_of) ops ->
+  let d := drun (dinit cap) ops in Inv names_of (d_cap d) (d_st d).
+Proof. intros. apply (drun_inv names_of); [apply dinv_init | assumption]. Qed.
 Print Assumptions C12_inv_preserved.
 
 (** ... and after every single operation from any state satisfying it (stale copies included) *)
-Theorem C12_step_preserves : forall names_of cap s o,
+Theorem C12_step_preserves : forall names_of d o,
+  DInv names_of d -> wf_dop names_of o -> DInv names_of (dstep d o).
+Proof. exact dstep_inv. Qed.
+Print Assumptions C12_step_preserves.
+
+(** the same for a capacity that never changes (the statement the handshake model C03 builds on) *)
+Theorem C12_static_step_preserves : forall names_of cap s o,
   Inv names_of cap s -> wf_op names_of o -> Inv names_of cap (step cap s o).
 Proof. exact step_inv. Qed.
-Print Assumptions C12_step_preserves.
+Print Assumptions C12_static_step_preserves.
 
 (** lookup_exact + reachable_by_each_name: looking up a name returns exactly the cached
     certificates that list it (left to right: nothing else is returned, no zero value; right to
     left: every cached certificate is reachable through each of its names) *)
 Theorem C12_lookup_exact : forall names_of cap ops n c,
-  Forall (wf_op names_of) ops ->
-  let s := run cap init ops in
+  Forall (wf_dop names_of) ops ->
+  let s := d_st (drun (dinit cap) ops) in
   In c (get_all_matching_certs s n) <-> (alookup (c_hash c) (cache s) = Some c /\ In n (c_names c)).
-Proof. intros. apply (lookup_exact names_of cap). apply run_inv; [apply inv_init | assumption]. Qed.
+Proof.
+  intros names_of cap ops n c Hwf s.
+  apply (lookup_exact names_of (d_cap (drun (dinit cap) ops))).
+  apply (drun_inv names_of); [apply dinv_init | assumption].
+Qed.
 Print Assumptions C12_lookup_exact.
 
 Theorem C12_reachable_by_each_name : forall names_of cap ops h c n,
-  Forall (wf_op names_of) ops ->
-  let s := run cap init ops in
+  Forall (wf_dop names_of) ops ->
+  let s := d_st (drun (dinit cap) ops) in
   alookup h (cache s) = Some c -> In n (c_names c) -> In c (get_all_matching_certs s n).
 Proof.
   intros names_of cap ops h c n Hwf s Hc Hn.
-  assert (HI : Inv names_of cap s) by (apply run_inv; [apply inv_init | assumption]).
-  apply (lookup_exact names_of cap s HI). split; [|exact Hn].
-  destruct (inv_cert names_of cap s HI h c Hc) as (-> & _). exact Hc.
+  assert (HI : Inv names_of (d_cap (drun (dinit cap) ops)) s)
+    by (apply (drun_inv names_of); [apply dinv_init | assumption]).
+  apply (lookup_exact names_of _ s HI). split; [|exact Hn].
+  destruct (inv_cert names_of _ s HI h c Hc) as (-> & _). exact Hc.
 Qed.
 Print Assumptions C12_reachable_by_each_name.
 
 (** Cache.AllMatchingCertificates: exactly the cached certificates listing the name or one of the
     candidates obtained by replacing its labels with "*" from the left *)
 Theorem C12_all_matching_exact : forall names_of cap ops q c,
-  Forall (wf_op names_of) ops ->
-  let s := run cap init ops in
+  Forall (wf_dop names_of) ops ->
+  let s := d_st (drun (dinit cap) ops) in
   In c (all_matching s q) <->
   (alookup (c_hash c) (cache s) = Some c /\
    exists n, In n (q :: wildcard_candidates q) /\ In n (c_names c)).
-Proof. intros. apply (all_matching_exact names_of cap). apply run_inv; [apply inv_init | assumption]. Qed.
+Proof.
+  intros names_of cap ops q c Hwf s.
+  apply (all_matching_exact names_of (d_cap (drun (dinit cap) ops))).
+  apply (drun_inv names_of); [apply dinv_init | assumption].
+Qed.
 Print Assumptions C12_all_matching_exact.
 
 (** no_duplicate_cert: one entry per hash; a hash is mentioned under a name once (for
     certificates without repeated names; in general as often as the name is repeated) ... *)
 Theorem C12_no_duplicate : forall names_of cap ops,
-  Forall (wf_op names_of) ops ->
-  let s := run cap init ops in
+  Forall (wf_dop names_of) ops ->
+  let s := d_st (drun (dinit cap) ops) in
   NoDup (akeys (cache s)) /\
   (forall n h, count_str h (idx s n) = if amem h (cache s) then count_str n (names_of h) else 0) /\
   ((forall h, NoDup (names_of h)) -> forall n, NoDup (idx s n)).
 Proof.
   intros names_of cap ops Hwf s.
-  assert (HI : Inv names_of cap s) by (apply run_inv; [apply inv_init | assumption]).
+  assert (HI : Inv names_of (d_cap (drun (dinit cap) ops)) s)
+    by (apply (drun_inv names_of); [apply dinv_init | assumption]).
   split; [apply (inv_nodup _ _ _ HI)|]. split; [apply (inv_count _ _ _ HI)|].
-  intros Hnd n. apply (no_duplicate_mention names_of cap s HI n Hnd).
+  intros Hnd n. apply (no_duplicate_mention names_of _ s HI n Hnd).
 Qed.
 Print Assumptions C12_no_duplicate.
 
@@ -88,19 +109,124 @@ Theorem C12_readd_merges_tags : forall cap s c v e,
 Proof. exact readd_merges_tags. Qed.
 Print Assumptions C12_readd_merges_tags.
 
-(** within_capacity, for every history, capacity and eviction choice *)
+(** ... and the merged tags stay: whatever (stale) copy one of the three write-backs carries, it
+    changes ONE field (the staple; the renewal information) of the entry under the copy's own hash
+    and nothing else -- not the index, not the key set, not another entry, not the tags.
+    ([same_but f h s s']: [s'] is [s] with [f] applied to the entry under [h], if there is one.) *)
+Theorem C12_writeback_changes_one_field : forall s,
+  (forall c, same_but (fun e => set_ocsp e (c_ocsp c)) (c_hash c) s (write_back c s)) /\
+  (forall hv, same_but (fun e => set_ocsp e (snd hv)) (fst hv) s (set_ocsp_at hv s)) /\
+  (forall h v, same_but (fun e => set_ari e v) h s (set_ari_at h v s)).
+Proof.
+  intros s. split; [intros c; apply write_back_effect|].
+  split; [intros hv; apply set_ocsp_at_effect | intros h v; apply set_ari_at_effect].
+Qed.
+Print Assumptions C12_writeback_changes_one_field.
+
+(** within_capacity, for every history (capacity changes included), eviction choice, stale copy:
+    the size never exceeds the capacity configured at that moment *)
 Theorem C12_within_capacity : forall names_of cap ops,
-  Forall (wf_op names_of) ops -> 0 < cap -> length (cache (run cap init ops)) <= cap.
-Proof. intros names_of cap ops Hwf. apply (inv_cap names_of cap). apply run_inv; [apply inv_init | assumption]. Qed.
+  Forall (wf_dop names_of) ops ->
+  let d := drun (dinit cap) ops in 0 < d_cap d -> length (cache (d_st d)) <= d_cap d.
+Proof.
+  intros names_of cap ops Hwf d. apply (inv_cap names_of).
+  apply (drun_inv names_of); [apply dinv_init | assumption].
+Qed.
 Print Assumptions C12_within_capacity.
+
+(** SetOptions: the new capacity is in force at once, only evictions happen, and exactly as many
+    as needed *)
+Theorem C12_set_options_trims : forall names_of z vs d,
+  DInv names_of d ->
+  let d' := set_capacity z vs d in
+  DInv names_of d' /\ d_cap d' = Z.to_nat z /\
+  length (cache (d_st d')) =
+    (if 0 <? Z.to_nat z then Nat.min (length (cache (d_st d))) (Z.to_nat z) else length (cache (d_st d))) /\
+  (forall h c, alookup h (cache (d_st d')) = Some c -> alookup h (cache (d_st d)) = Some c).
+Proof. exact set_capacity_spec. Qed.
+Print Assumptions C12_set_options_trims.
+
+(** the structural part of the invariant ([Inv names_of 0]) does not depend on the capacity at
+    all: every operation preserves it for EVERY capacity, and a cache that is over a (positive)
+    capacity never grows *)
+Theorem C12_structure_for_every_capacity : forall names_of cap s o,
+  Inv names_of 0 s -> wf_op names_of o ->
+  Inv names_of 0 (step cap s o) /\
+  (0 < cap -> length (cache (step cap s o)) <= Nat.max cap (length (cache s))).
+Proof.
+  intros names_of cap s o HI Hwf. split; [apply step_sinv; assumption|].
+  intros Hcap. eapply step_size_bound; eassumption.
+Qed.
+Print Assumptions C12_structure_for_every_capacity.
+
+(** SetOptions as it was before fix 4af396d ([dstep_untrimmed]: the options were stored, nothing
+    was evicted): the invariant survived only histories that never lower the capacity below the
+    current size ... *)
+Theorem C12_untrimmed_setoptions_ok_if_never_lowered : forall names_of cap ops,
+  Forall (wf_dop names_of) ops -> never_lowered_below_size (dinit cap) ops ->
+  DInv names_of (drun_untrimmed (dinit cap) ops).
+Proof. intros. apply (drun_untrimmed_inv names_of); [apply dinv_init | assumption | assumption]. Qed.
+Print Assumptions C12_untrimmed_setoptions_ok_if_never_lowered.
+
+(** ... and within_capacity was false of it: capacity 0; add three certificates; SetOptions
+    (Capacity 1); add a fourth (one eviction): 3 certificates cached, capacity 1.  The same
+    history is replayed on the real code on every run (class "capacity-lowered") and must now
+    end with one certificate. *)
+Definition ex_h (k : N) : hash := [104; k]%N.
+Definition ex_n (k : N) : name := [k; 46; 120]%N.
+Definition ex_names4 (h : hash) : list name :=
+  match h with [104; k]%N => [ex_n k] | _ => [] end.
+Definition ex_c (k : N) : cert := Cert (ex_h k) [ex_n k] false [] [] 0%Z [].
+Definition ex_lowering : list dop :=
+  [DOp (OAdd (ex_c 49) None); DOp (OAdd (ex_c 50) None); DOp (OAdd (ex_c 51) None);
+   DSetCap 1%Z []; DOp (OAdd (ex_c 52) None)].
+
+Theorem C12_within_capacity_refuted_when_lowered :
+  exists names_of ops,
+    Forall (wf_dop names_of) ops /\
+    let d := drun_untrimmed (dinit 0) ops in 0 < d_cap d /\ d_cap d < length (cache (d_st d)).
+Proof.
+  exists ex_names4, ex_lowering. split.
+  - repeat constructor; cbn; discriminate.
+  - vm_compute. split; repeat constructor.
+Qed.
+Print Assumptions C12_within_capacity_refuted_when_lowered.
+
+(** the ConfigGetter (CacheOptions.GetConfigForCert, which chooses the Config by the certificate's
+    tags) is shown, by the scan of a maintenance pass, exactly the cached certificates the pass
+    considers, as they are cached at that moment (all tags merged so far) *)
+Theorem C12_getter_sees_cached : forall names_of cap ops r c,
+  Forall (wf_dop names_of) ops ->
+  let s := d_st (drun (dinit cap) ops) in
+  In c (scan_view r s) <-> alookup (c_hash c) (cache s) = Some c /\ scan_sel r c = true.
+Proof.
+  intros names_of cap ops r c Hwf s.
+  apply (scan_view_exact names_of (d_cap (drun (dinit cap) ops))).
+  apply (drun_inv names_of); [apply dinv_init | assumption].
+Qed.
+Print Assumptions C12_getter_sees_cached.
+
+(** AllMatchingCertificates, Stop and the scans leave both maps and the capacity as they are *)
+Theorem C12_reads_and_stop_change_nothing : forall d q r,
+  dstep d (DQuery q) = d /\ dstep d DStop = d /\ dstep d (DScan r) = d.
+Proof. intros. repeat split. Qed.
+Print Assumptions C12_reads_and_stop_change_nothing.
 
 (** schedules: any number of threads running the composite operations of the code as sequences
     of critical sections (reads hand copies to later steps), under any scheduler *)
 Theorem C12_every_schedule : forall names_of cap pool sched,
   Forall (wf_prog names_of) pool ->
-  Inv names_of cap (fst (run_sched cap sched (init, pool))).
-Proof. intros. apply sched_inv; [apply inv_init | assumption]. Qed.
+  DInv names_of (fst (run_sched sched (dinit cap, pool))).
+Proof. intros. apply sched_inv; [apply dinv_init | assumption]. Qed.
 Print Assumptions C12_every_schedule.
+
+(** every schedule is a sequential history of well-formed operations *)
+Theorem C12_schedules_serialize : forall names_of cap pool sched,
+  Forall (wf_prog names_of) pool ->
+  exists ops, Forall (wf_dop names_of) ops /\
+              fst (run_sched sched (dinit cap, pool)) = drun (dinit cap) ops.
+Proof. intros. apply sched_serializes; [apply dinv_init | assumption]. Qed.
+Print Assumptions C12_schedules_serialize.
 
 (** the composite operations of the code are such programs *)
 Theorem C12_code_paths_are_programs : forall names_of,
@@ -111,18 +237,52 @@ Theorem C12_code_paths_are_programs : forall names_of,
   (forall h v, wf_prog names_of (prog_update_ari h v)) /\
   (forall c victim, wf_cert names_of c -> wf_prog names_of (prog_cache c victim)) /\
   (forall hs, wf_prog names_of (prog_remove hs)) /\
-  (forall h, wf_prog names_of (prog_remove_current h)).
+  (forall h, wf_prog names_of (prog_remove_current h)) /\
+  (forall z victims, wf_prog names_of (prog_set_options z victims)) /\
+  wf_prog names_of prog_stop /\
+  (forall ari_of, wf_prog names_of (prog_renew_maintenance ari_of)) /\
+  (forall q ret, (forall l, Forall (wf_copy names_of) l -> wf_prog names_of (ret l)) ->
+                 wf_prog names_of (prog_all_matching q ret)).
 Proof. exact code_paths_wf. Qed.
 Print Assumptions C12_code_paths_are_programs.
+
+(** run without interference, RemoveManaged is the model's atomic [ORemoveManaged] and
+    AllMatchingCertificates hands its caller the model's [all_matching] *)
+Theorem C12_composites_alone : forall d,
+  (forall subjects, exists n, fst (run_sched (repeat 0 n) (d, [prog_remove_managed subjects])) =
+                              dstep d (DOp (ORemoveManaged subjects))) /\
+  (forall q ret, exists n, run_sched (repeat 0 n) (d, [prog_all_matching q ret]) =
+                           (d, [ret (all_matching (d_st d) q)])).
+Proof. intros d. split; [apply remove_managed_alone | apply all_matching_alone]. Qed.
+Print Assumptions C12_composites_alone.
 
 (** the run-time monitor [spec_ok] (Cache.Check) is the boolean form of the statements above:
     it holds of everything the model produces, so a failure on an observation of the
     implementation is a failure of the property *)
 Theorem C12_spec_ok_of_model : forall cap pool ops queries,
-  Forall (wf_op (names_of_pool (case_certs_of pool ops))) ops ->
+  Forall (wf_dop (names_of_pool (case_certs_of pool ops))) ops ->
   spec_ok (model_case cap pool ops queries) = true.
 Proof. exact spec_ok_of_model. Qed.
 Print Assumptions C12_spec_ok_of_model.
+
+(** the tie: the comparisons the model evaluates are the ones read from cache.go by the
+    translator, and the statement shapes it is written after are the ones found there *)
+Theorem C12_code_as_modelled :
+  (forall cap s, at_capacity cap s = (0 <? cap) && (cap <=? length (cache s))) /\
+  (forall t, tags_guard t = negb (is_nil t)) /\
+  (forall kl, index_list_empty kl = is_nil kl) /\
+  (forall z, clamp_cap z = Z.to_nat z) /\
+  (forall n s, trim_count n s = if 0 <? n then length (cache s) - n else 0) /\
+  c_star = 42%N /\
+  cache_replace_shape = [1; 2; 3; 4] /\ cache_store_guards_handshake = [true] /\
+  cache_store_guards_ocsp = [true] /\ cache_store_guards_ari = [true; true] /\
+  cache_map_store_sites = 6 /\ cache_map_delete_sites = 1.
+Proof.
+  split; [exact at_capacity_eq|]. split; [exact tags_guard_eq|]. split; [exact index_list_empty_eq|].
+  split; [exact clamp_cap_eq|]. split; [exact trim_count_eq|]. split; [reflexivity|].
+  pose proof code_shape_as_modelled as H. tauto.
+Qed.
+Print Assumptions C12_code_as_modelled.
 
 (** ---- non-vacuity ---- *)
 Definition ex_names_of (h : hash) : list name :=
@@ -132,28 +292,33 @@ Definition ex_names_of (h : hash) : list name :=
 Definition ex_c1 := Cert [104; 49]%N [[97]%N; [98]%N] true [] [[116]%N] 0%Z [].
 Definition ex_c2 := Cert [104; 50]%N [[97]%N] false [] [] 0%Z [].
 Definition ex_stale := set_ocsp ex_c1 7%Z.
-Definition ex_ops : list op :=
-  [OAdd ex_c1 None; OAdd ex_c2 (Some [104; 49]%N); OWriteBack ex_stale; OAdd ex_c1 (Some [104; 50]%N);
-   ORemoveHashes [[122]%N]; OAdd ex_c1 None].
+Definition ex_ops : list dop :=
+  [DOp (OAdd ex_c1 None); DOp (OAdd ex_c2 (Some [104; 49]%N)); DOp (OWriteBack ex_stale);
+   DOp (OAdd ex_c1 (Some [104; 50]%N)); DOp (ORemoveHashes [[122]%N]); DOp (OAdd ex_c1 None);
+   DSetCap 0%Z []; DOp (OAdd ex_c2 None); DQuery [97]%N; DScan true; DSetCap 1%Z [[104; 49]%N]; DStop].
 
 Example C12_hypotheses_satisfiable :
-  Forall (wf_op ex_names_of) ex_ops /\
-  (* capacity 1: the second add evicts h1, the stale write-back of h1 is refused, h1 comes back *)
-  akeys (cache (run 1 init ex_ops)) = [[104; 49]%N] /\
-  idx (run 1 init ex_ops) [97]%N = [[104; 49]%N] /\
-  map (fun s => akeys (cache s)) (trace 1 init ex_ops) =
-    [[[104; 49]]; [[104; 50]]; [[104; 50]]; [[104; 49]]; [[104; 49]]; [[104; 49]]]%N.
+  Forall (wf_dop ex_names_of) ex_ops /\
+  (* capacity 1: the second add evicts h1, the stale write-back of h1 is refused, h1 comes back;
+     capacity 0 (unlimited): h2 is added next to it; capacity 1 again: h1 is evicted *)
+  akeys (cache (d_st (drun (dinit 1) ex_ops))) = [[104; 50]%N] /\
+  d_cap (drun (dinit 1) ex_ops) = 1 /\
+  idx (d_st (drun (dinit 1) ex_ops)) [97]%N = [[104; 50]%N] /\
+  never_lowered_below_size (dinit 1) (firstn 10 ex_ops) /\
+  map (fun c => (c_hash c, c_tags c)) (scan_view true (d_st (drun (dinit 1) (firstn 9 ex_ops)))) =
+    [([104; 49], [[116]])]%N.
 Proof.
-  split; [|vm_compute; repeat split].
+  split; [|vm_compute; repeat split; intros; lia].
   repeat constructor; cbn; try discriminate; reflexivity.
 Qed.
 
-(** An observation, not a violation of C12: the handshake's write-back stores its whole (stale)
-    copy, so a tag merged between the handshake's read and its write-back is dropped again
-    (maintain.go's write-backs re-read under the lock and only change one field). *)
-Example C12_stale_writeback_reverts_tags :
+(** the stale write-back of the handshake: before fix 12d489e it stored its whole copy, so a tag
+    merged between the handshake's read and its write-back was dropped again; now the tag stays
+    and only the staple changes (replayed on the real code, class "stale-writeback-tags") *)
+Example C12_stale_writeback_keeps_tags :
   let t2 := Cert [104; 49]%N [[97]%N; [98]%N] true [] [[117]%N] 0%Z [] in
-  let s := run 0 init [OAdd ex_c1 None; OAdd t2 None; OWriteBack ex_stale] in
-  map c_tags (map snd (cache (run 0 init [OAdd ex_c1 None; OAdd t2 None]))) = [[[116]; [117]]]%N /\
-  map c_tags (map snd (cache s)) = [[[116]]]%N.
-Proof. vm_compute. split; reflexivity. Qed.
+  let s2 := run 0 init [OAdd ex_c1 None; OAdd t2 None] in
+  map c_tags (map snd (cache s2)) = [[[116]; [117]]]%N /\
+  map (fun c => (c_tags c, c_ocsp c)) (map snd (cache (write_back_whole_copy ex_stale s2))) = [([[116]], 7%Z)]%N /\
+  map (fun c => (c_tags c, c_ocsp c)) (map snd (cache (write_back ex_stale s2))) = [([[116]; [117]], 7%Z)]%N.
+Proof. vm_compute. repeat split. Qed.
